@@ -516,8 +516,10 @@ inline void cmpModel(const Model& a, const Model& b, Cmp& c)
           c.numScaled("eval" + fieldDep, va, vb, totalSill, 1000., fmt("pair %d var (%d,%d)", k, i, j));
         }
     }
+    // C(0): a sum of sills for the bounded structures; for the field-dependent ones sill x f(field) with
+    // field = scadef x largest range = coefficient x range, i.e. four rounded factors (calibrated max 0.99 at x4 -> x40)
     for (int i = 0; i < nvar; i++)
-      for (int j = 0; j < nvar; j++) c.numScaled("eval" + fieldDep, a.eval0(i, j), b.eval0(i, j), totalSill, 4., fmt("h=0 var (%d,%d)", i, j));
+      for (int j = 0; j < nvar; j++) c.numScaled("eval" + fieldDep, a.eval0(i, j), b.eval0(i, j), totalSill, 40., fmt("h=0 var (%d,%d)", i, j));
   }
   if (a.getDriftNumber() == b.getDriftNumber() && a.getDriftNumber() > 0)
   {
